@@ -1,11 +1,14 @@
 //@ kani xargs_enum
 //@ append src/xargs/mod.rs
 //@ module verif_enum_xargs
-//@ harness e_ws_reader kind=enum props=C05 bound=<<every input of 0..=4 symbols over {a, blank, newline, ', ", backslash, e-acute (2 bytes)} x every way of cutting it into read() chunks>> label=<<WhitespaceDelimitedArgumentReader yields exactly the arguments of the statement's tokenizer (unquoted blanks/newlines split, quotes literal, backslash quotes one byte, '' is an empty argument, unterminated quote is an error), each marked as ending a line iff a newline terminated it, whatever the read() chunking>>
-//@ harness e_byte_reader kind=enum props=C05,C07 bound=<<every input of 0..=4 symbols over {a, blank, newline, ', backslash, NUL, e-acute (2 bytes)} x delimiter NUL or newline x every way of cutting it into read() chunks>> label=<<ByteDelimitedArgumentReader yields exactly the non-empty delimiter-separated fields, byte for byte (no quote processing, multi-byte characters intact across chunk edges), in order, then None>>
-//@ harness e_exit_status kind=enum props=C19 bound=<<every sequence of 0..=3 child outcomes over {exit 0, exit 3, exit 125, exit 255, killed by SIGKILL}, one invocation per input item (xargs -n1 -a FILE sh -c ...), real processes>> label=<<xargs_main returns 0 iff all exited 0, 123 when some exited 1..125 and all input was processed, 124 at once after an exit 255, 125 at once after a death by signal; no invocation runs after the stopping one>>
+//@ harness e_ws_reader kind=enum props=C05 thorough_bound=<<every input of 0..=5 symbols over {a, blank, newline, ', ", backslash, e-acute (2 bytes)} x every way of cutting it into read() chunks>> bound=<<every input of 0..=4 symbols over {a, blank, newline, ', ", backslash, e-acute and a-grave (2 bytes each; 0xA0 is the second byte of a-grave), vertical tab} x every way of cutting it into read() chunks>> label=<<WhitespaceDelimitedArgumentReader yields exactly the arguments of the statement's tokenizer (unquoted blanks/newlines split, quotes literal, backslash quotes one byte, '' is an empty argument, unterminated quote is an error), each marked as ending a line iff a newline terminated it, whatever the read() chunking>>
+//@ harness e_byte_reader kind=enum props=C05,C07 thorough_bound=<<every input of 0..=5 symbols over {a, blank, newline, ', backslash, NUL, e-acute (2 bytes)} x delimiter NUL or newline x every way of cutting it into read() chunks>> bound=<<every input of 0..=4 symbols over {a, blank, newline, ', backslash, NUL, e-acute (2 bytes)} x delimiter NUL or newline x every way of cutting it into read() chunks>> label=<<ByteDelimitedArgumentReader yields exactly the non-empty delimiter-separated fields, byte for byte (no quote processing, multi-byte characters intact across chunk edges), in order, then None>>
+//@ harness e_delimiter kind=enum props=C05 bound=<<every -d operand of 1..=4 symbols over {backslash, 0, 1, 4, 7, 8, x, a, n, t, comma, e-acute}>> label=<<a delimiter operand is rejected or denotes exactly one byte: a single byte stands for itself, \\a \\b \\f \\n \\r \\t \\v \\\\ \\0 for their C meaning, \\xHH for that hex value, \\0ooo (and \\ooo if accepted at all) for that octal value; nothing else is accepted>>
+//@ harness e_batching kind=enum props=C04 thorough_bound=<<inputs of 0..=4 arguments, otherwise as quick>> bound=<<inputs of 0..=2 arguments of 1 or 3 bytes, each followed by a blank, a newline or blank+newline x (-n 1|2, -L 1|2 or neither) x (-s absent, or room for 3, 4 or 8 more bytes than the command itself) x -x on/off; -r on/off for empty input; real processes recording their argv>> label=<<the appended arguments of successive invocations concatenate to the input sequence, every invocation starts with the unchanged command and initial arguments and respects -n, -L (a line ending in a blank continues) and -s (every argument plus one terminator, command included) simultaneously, is maximal, empty input runs once without -r and never with it, an argument that cannot fit alone (or any -s overflow under -x with -n/-L) ends the run with exit status 1>>
+//@ harness e_mode_select kind=enum props=C20 bound=<<every order of every choice of (-I{} or bare -i or neither) x (-n1, -n2 or neither) x (-L1 or not) x input empty or "a b / c", real processes recording their argv>> label=<<when -I/-i, -n and -L are combined the option given last decides the mode (-I with -n 1 and no -L is replace mode in either order); replace mode runs once per line with the whole line substituted and nothing appended and runs nothing for empty input; the other modes append arguments and run once for empty input>>
+//@ harness e_exit_status kind=enum props=C19 thorough_bound=<<every sequence of 0..=4 child outcomes over {exit 0, exit 3, exit 125, exit 255, killed by SIGKILL}, one invocation per input item, real processes>> bound=<<every sequence of 0..=3 child outcomes over {exit 0, exit 3, exit 125, exit 255, killed by SIGKILL}, one invocation per input item (xargs -n1 -a FILE sh -c ...), real processes>> label=<<xargs_main returns 0 iff all exited 0, 123 when some exited 1..125 and all input was processed, 124 at once after an exit 255, 125 at once after a death by signal; no invocation runs after the stopping one>>
 //@ harness e_cannot_run kind=enum props=C19 bound=<<commands: missing, file without execute permission, directory, executable file that is no program (ENOEXEC), dangling path through a non-directory (ENOTDIR)>> label=<<a command that cannot be found gives 127, one that exists but cannot be executed gives 126, whatever the errno>>
-//@ harness e_replace kind=enum props=C20 bound=<<replacement strings {} / ab / RR; one initial argument of 1..=3 pieces over {R, first character of R, x}; input lines "l", "a b" and a line containing R; real processes recording their argv>> label=<<xargs -I R runs the command once per input line with every occurrence of R in the initial argument replaced by the whole line and nothing appended>>
+//@ harness e_replace kind=enum props=C20 bound=<<replacement strings {} / ab / RR; one initial argument of 1..=3 pieces over {R, first character of R, x}; input lines "l", "a b", a line containing R, and lines ending in a blank or a tab; real processes recording their argv>> label=<<xargs -I R runs the command once per input line with every occurrence of R in the initial argument replaced by the whole line and nothing appended>>
 // Exhaustive native enumeration (tools/kani_lane.py, kind=enum): the REAL readers / xargs_main, compiled by plain rustc, are run on
 // every input of the stated domain and compared with an executable transcription of the property statement.
 #[cfg(verif_replay)]
@@ -58,7 +61,7 @@ mod verif_enum_xargs {
         out
     }
     fn ws_body() {
-        let data = stream(&[b"a", b" ", b"\n", b"'", b"\"", b"\\", "\u{e9}".as_bytes()], 4);
+        let data = stream(&[b"a", b" ", b"\n", b"'", b"\"", b"\\", "\u{e9}".as_bytes(), "\u{e0}".as_bytes(), b"\x0b"], if deep() { 5 } else { 4 });
         let c = cuts(data.len());
         let want = ref_tokens(&data);
         let mut rd = WhitespaceDelimitedArgumentReader::new(Chunky { data: data.clone(), pos: 0, cuts: c.clone() });
@@ -77,7 +80,7 @@ mod verif_enum_xargs {
     #[test] fn e_ws_reader() { kani::explore(ws_body) }
 
     fn byte_body() {
-        let data = stream(&[b"a", b" ", b"\n", b"'", b"\\", b"\0", "\u{e9}".as_bytes()], 4);
+        let data = stream(&[b"a", b" ", b"\n", b"'", b"\\", b"\0", "\u{e9}".as_bytes()], if deep() { 5 } else { 4 });
         let d = [0u8, b'\n'][pick(2)];
         let c = cuts(data.len());
         let want: Vec<Vec<u8>> = data.split(|&b| b == d).filter(|f| !f.is_empty()).map(|f| f.to_vec()).collect();
@@ -98,6 +101,32 @@ mod verif_enum_xargs {
     }
     #[test] fn e_byte_reader() { kani::explore(byte_body) }
 
+    fn delimiter_body() {
+        let syms = ["\\", "0", "1", "4", "7", "8", "x", "a", "n", "t", ",", "\u{e9}"];
+        let n = 1 + pick(4);
+        let op: String = (0..n).map(|_| syms[pick(syms.len())]).collect();
+        let got = parse_delimiter(&op).ok();
+        // what the operand may denote
+        let b = op.as_bytes();
+        let (must, may): (Option<u8>, Option<u8>) = if op == "\\" { (None, Some(b'\\')) } // a lone backslash: an incomplete escape (rejected) or itself
+            else if b.len() == 1 { (Some(b[0]), None) }
+            else if b[0] != b'\\' { (None, None) }
+            else {
+                let rest = &op[1..];
+                let named = match rest { "a" => Some(7u8), "b" => Some(8), "f" => Some(12), "n" => Some(10), "r" => Some(13), "t" => Some(9), "v" => Some(11), "\\" => Some(b'\\'), _ => None };
+                if named.is_some() { (named, None) }
+                else if rest == "0" { (None, Some(0)) }   // NUL in C; the repository's own test pins it as rejected (empty octal number)
+                else if let Some(h) = rest.strip_prefix('x') { (if !h.is_empty() && h.bytes().all(|c| c.is_ascii_hexdigit()) { u8::from_str_radix(h, 16).ok() } else { None }, None) }
+                else if rest.starts_with('0') && rest.len() > 1 { let o = &rest[1..]; (if o.bytes().all(|c| (b'0'..=b'7').contains(&c)) { u8::from_str_radix(o, 8).ok() } else { None }, None) }
+                else if !rest.is_empty() && rest.len() <= 3 && rest.bytes().all(|c| (b'0'..=b'7').contains(&c)) { (None, u8::from_str_radix(rest, 8).ok()) }  // \ooo: C also reads this; rejecting it is fine
+                else { (None, None) }
+            };
+        let ok = match (must, may) { (Some(m), _) => got == Some(m), (None, Some(m)) => got.is_none() || got == Some(m), (None, None) => got.is_none() };
+        if !ok { eprintln!("  input -d {op:?}: read as {got:?}; must be {must:?}{}", may.map(|m| format!(" (or rejected, or {m})")).unwrap_or_default()); }
+        assert!(ok, "delimiter operand");
+    }
+    #[test] fn e_delimiter() { kani::explore(delimiter_body) }
+
     // ---- real processes ----
     fn scratch(tag: &str) -> std::path::PathBuf {
         let d = std::env::temp_dir().join(format!("verif-enum-{}-{}", tag, std::process::id()));
@@ -106,7 +135,7 @@ mod verif_enum_xargs {
         d
     }
     fn exit_body() {
-        let n = pick(4);
+        let n = pick(if deep() { 5 } else { 4 });
         let outcomes: Vec<usize> = (0..n).map(|_| pick(5)).collect();
         let names = ["0", "3", "125", "255", "K"];
         let d = scratch("exit");
@@ -132,6 +161,108 @@ mod verif_enum_xargs {
         assert!(ran == want_ran, "an invocation ran after the one that must stop xargs, or one is missing");
     }
     #[test] fn e_exit_status() { kani::explore(exit_body) }
+
+    fn batching_body() {
+        let ntok = pick(if deep() { 5 } else { 3 });
+        let mut input = String::new();
+        let mut items: Vec<(String, bool)> = Vec::new();
+        for i in 0..ntok {
+            let tok = if pick(2) == 0 { format!("{}", (b'a' + i as u8) as char) } else { format!("{0}{0}{0}", (b'a' + i as u8) as char) };
+            let sep = [" ", "\n", " \n"][pick(3)];
+            input.push_str(&tok); input.push_str(sep);
+            items.push((tok, sep == "\n"));
+        }
+        let (n, l): (Option<usize>, Option<usize>) = match pick(5) { 0 => (None, None), 1 => (Some(1), None), 2 => (Some(2), None), 3 => (None, Some(1)), _ => (None, Some(2)) };
+        let room = [None, Some(3usize), Some(4), Some(8)][pick(4)];
+        let x = pick(2) == 1;
+        let r = ntok == 0 && pick(2) == 1;
+        let d = scratch("batch");
+        let (inp, log) = (d.join("in"), d.join("log"));
+        fs::write(&inp, &input).unwrap();
+        fs::write(&log, "").unwrap();
+        let script = format!("for a; do printf '%s\\0' \"$a\" >> '{l}'; done; printf '\\001' >> '{l}'", l = log.display());
+        let cmd: Vec<String> = vec!["sh".into(), "-c".into(), script, "sh".into(), "INIT".into()];
+        let base: usize = cmd.iter().map(|c| c.len() + 1).sum();
+        let mut args: Vec<String> = vec!["xargs".into(), "-a".into(), inp.to_str().unwrap().into()];
+        if let Some(n) = n { args.push("-n".into()); args.push(n.to_string()); }
+        if let Some(l) = l { args.push("-L".into()); args.push(l.to_string()); }
+        if let Some(rm) = room { args.push("-s".into()); args.push((base + rm).to_string()); }
+        if x { args.push("-x".into()); }
+        if r { args.push("-r".into()); }
+        args.extend(cmd.iter().cloned());
+        let argv: Vec<&str> = args.iter().map(|s| s.as_str()).collect();
+        let rc = xargs_main(&argv);
+        let got_raw = fs::read(&log).unwrap();
+        let got: Vec<Vec<String>> = got_raw.split(|&b| b == 1).filter(|r| !r.is_empty())
+            .map(|r| r.split(|&b| b == 0).filter(|a| !a.is_empty()).map(|a| String::from_utf8_lossy(a).into_owned()).collect()).collect();
+        // ---- the statement ----
+        let mut want: Vec<Vec<String>> = Vec::new();
+        let mut want_rc = 0;
+        let (mut cur, mut chars, mut lines): (Vec<String>, usize, usize) = (Vec::new(), 0, 0);
+        for (tok, ends_line) in &items {
+            let cost = tok.len() + 1;
+            let (fits_n, fits_l, fits_s) = (n.map_or(true, |n| cur.len() < n), l.map_or(true, |l| lines < l), room.map_or(true, |rm| chars + cost <= rm));
+            if !(fits_n && fits_l && fits_s) {
+                if fits_n && fits_l && x && (n.is_some() || l.is_some()) { want_rc = 1; cur.clear(); break; }
+                if !cur.is_empty() { want.push(std::mem::take(&mut cur)); }
+                chars = 0; lines = 0;
+                if room.map_or(false, |rm| cost > rm) { want_rc = 1; break; }
+            }
+            cur.push(tok.clone()); chars += cost; if *ends_line { lines += 1; }
+        }
+        if want_rc == 0 { if !cur.is_empty() { want.push(cur); } else if items.is_empty() && !r { want.push(Vec::new()); } }
+        let want_full: Vec<Vec<String>> = want.iter().map(|b| { let mut v = vec!["INIT".to_string()]; v.extend(b.iter().cloned()); v }).collect();
+        let _ = fs::remove_dir_all(&d);
+        if got != want_full || rc != want_rc {
+            eprintln!("  input {:?} with{}{}{}{}{}\n  input invocations {:?} (exit {rc})\n  input expected    {:?} (exit {want_rc})", input,
+                      n.map(|n| format!(" -n {n}")).unwrap_or_default(), l.map(|l| format!(" -L {l}")).unwrap_or_default(),
+                      room.map(|rm| format!(" -s (command + {rm})")).unwrap_or_default(), if x { " -x" } else { "" }, if r { " -r" } else { "" }, got, want_full);
+        }
+        assert!(got == want_full, "invocations differ from the statement's batching");
+        assert!(rc == want_rc, "exit status");
+    }
+    #[test] fn e_batching() { kani::explore(batching_body) }
+
+    fn mode_select_body() {
+        let rep = [None, Some("-I{}"), Some("-i")][pick(3)];
+        let n = [None, Some(1usize), Some(2)][pick(3)];
+        let l = [None, Some(1usize)][pick(2)];
+        let mut opts: Vec<(char, String)> = Vec::new();
+        if let Some(r) = rep { opts.push(('r', r.to_string())); }
+        if let Some(n) = n { opts.push(('n', format!("-n{n}"))); }
+        if l.is_some() { opts.push(('l', "-L1".to_string())); }
+        // every order
+        let mut order: Vec<(char, String)> = Vec::new();
+        while !opts.is_empty() { let k = pick(opts.len()); order.push(opts.remove(k)); }
+        let empty = pick(2) == 1;
+        let d = scratch("mode");
+        let (inp, log) = (d.join("in"), d.join("log"));
+        fs::write(&inp, if empty { "" } else { "a b\nc\n" }).unwrap();
+        fs::write(&log, "").unwrap();
+        let script = format!("for a; do printf '<%s>' \"$a\" >> '{l}'; done; echo >> '{l}'", l = log.display());
+        let mut args: Vec<String> = vec!["xargs".into(), "-a".into(), inp.to_str().unwrap().into()];
+        args.extend(order.iter().map(|o| o.1.clone()));
+        args.extend(["sh", "-c", &script, "sh", "X{}Y"].iter().map(|s| s.to_string()));
+        let argv: Vec<&str> = args.iter().map(|s| s.as_str()).collect();
+        let rc = xargs_main(&argv);
+        let got = fs::read_to_string(&log).unwrap();
+        // the statement
+        let last = order.last().map(|o| o.0);
+        let mode = if rep.is_some() && l.is_none() && (n.is_none() || n == Some(1)) { 'r' } else { last.unwrap_or('p') };
+        let want: String = match (mode, empty) {
+            ('r', true) => String::new(),
+            ('r', false) => "<Xa bY>\n<XcY>\n".into(),
+            (_, true) => "<X{}Y>\n".into(),
+            ('n', false) => if n == Some(1) { "<X{}Y><a>\n<X{}Y><b>\n<X{}Y><c>\n".into() } else { "<X{}Y><a><b>\n<X{}Y><c>\n".into() },
+            ('l', false) => "<X{}Y><a><b>\n<X{}Y><c>\n".into(),
+            (_, false) => "<X{}Y><a><b><c>\n".into(),
+        };
+        let _ = fs::remove_dir_all(&d);
+        if got != want || rc != 0 { eprintln!("  input xargs {:?} on {} input\n  input argv recorded {:?} (exit {rc})\n  input expected      {:?}", order.iter().map(|o| o.1.clone()).collect::<Vec<_>>(), if empty { "empty" } else { "'a b\\nc\\n'" }, got, want); }
+        assert!(got == want, "mode selection / empty input");
+        assert!(rc == 0, "exit status");
+    }
+    #[test] fn e_mode_select() { kani::explore(mode_select_body) }
 
     fn cannot_run_body() {
         use std::os::unix::fs::PermissionsExt;
@@ -161,7 +292,7 @@ mod verif_enum_xargs {
         let pieces = [r, first, "x"];
         let np = 1 + pick(3);
         let template: String = (0..np).map(|_| pieces[pick(3)]).collect();
-        let lines = ["l".to_string(), "a b".to_string(), format!("p{}q", r)];
+        let lines = ["l".to_string(), "a b".to_string(), format!("p{}q", r), "t ".to_string(), "u\tv\t".to_string()];
         let d = scratch("repl");
         let input = d.join("in");
         let log = d.join("log");
